@@ -334,14 +334,14 @@ def _phi_writes(ex: SymExec, phi: Any) -> list[tuple[Event, Any]]:
     """Events that give the phi a value: `_set_def(phi, v)` or `by_def[phi] = v`."""
     out = []
     for e in ex.events:
-        if e.kind == 'call' and e.name == 'self._set_def' and len(e.args) == 2 and e.args[0] == phi:
+        if e.kind == 'call' and e.name in ('self._set_def', 'self._set_def_bound') and len(e.args) == 2 and e.args[0] == phi:
             out.append((e, e.args[1]))
         if e.kind == 'store' and show(e.args[0]) == 'self.by_def' and e.args[1] == phi:
             out.append((e, e.args[2]))
     return out
 
 
-COMBINERS = ('|', 'self._meet', 'self._unify')
+COMBINERS = ('|', 'self._meet', 'self._unify', 'self._join')
 
 
 def _is_join(v: Any, phi: Any) -> bool:
@@ -1057,8 +1057,8 @@ def x2_alias_routes(ctx: Ctx):
 
     # the catch-all escapes what it mentions; the integer-built sequences are the only unescaped fresh values
     g = 'case(e, _)'
-    esc = [e for e in ex.events if e.kind == 'call' and e.name.endswith('._visit_expr') and 'EscapeVars' in e.name and e.guards and show(e.guards[0]) == g]
-    ctx.check(len(esc) == 1 and show(esc[0].args[0]) == 'e', ALIAS, wild.pattern, q, 'an unmodelled expression marks every list variable it mentions as shared outward',
+    esc = [e for e in ex.events if e.kind == 'call' and e.name == '._visit_expr' and e.args and show(e.args[0]) == '_EscapeVars(self)' and e.guards and show(e.guards[0]) == g]
+    ctx.check(len(esc) == 1 and show(esc[0].args[1]) == 'e', ALIAS, wild.pattern, q, 'an unmodelled expression marks every list variable it mentions as shared outward',
               'an unmodelled operation that returns or retains its operand would leave the operand looking uniquely owned')
     fresh = {cls for cls, c in case_of.items() if c is not wild and not any(call_name(k) in ('self.regions.merge', 'self._escape_args', 'self._project', 'self._part', 'self._reg') for s in c.body for k in calls_in(s))}
     ctx.check(fresh == FRESH_FROM_INTEGERS, ALIAS, f, q, f'fresh values that neither merge with nor escape their operands are exactly {sorted(FRESH_FROM_INTEGERS)}',
